@@ -122,6 +122,14 @@ pub fn gamma_p_grid(tier: Tier, a: f64) -> Vec<f64> {
     if q < 1.0 {
         v.extend([1.0 - q, next_up(1.0 - q), next_down(1.0 - q)]);
     }
+    // thresholds on the Cornish-Fisher estimate w: the `|1 - w/a| < 1e-6` early return (quantile = a) and the
+    // `w < 3a` switch (quantile = 3a): p = P(a, a(1+δ)), P(a, 3a(1+δ))
+    for (mult, deltas) in [(1.0, vec![0.0, 1e-7, -1e-7, 1e-6, -1e-6, 3e-6, -3e-6, 1e-5, -1e-5, 1e-4, -1e-4]), (3.0, vec![0.0, 1e-6, -1e-6, 1e-3, -1e-3])] {
+        for d in deltas {
+            let (pp, _) = inc_gamma(a, mult * a * (1.0 + d));
+            v.extend([pp, next_up(pp), next_down(pp)]);
+        }
+    }
     v.retain(|p| (0.0..1.0).contains(p));
     v.sort_by(|a, b| a.partial_cmp(b).unwrap());
     v.dedup();
@@ -290,7 +298,7 @@ pub fn run_c12(ctx: &Ctx) -> i32 {
     extra.insert("branches_populated".into(), json!(branches));
     let fin = Finish {
         level: "exploration",
-        rule: "deterministic (a,p) lattice: log-spaced a plus ulp-neighbours of 0.05, 0.3, 1±1e-8, 1, 100; p = 0, 2^-k, 1-2^-k, i/n, 10^-e, 1-10^-e and per-a the p placing b=(1-p)Γ(a) on every start-value threshold ±2 ulp; every point is a distinct input; non-trivial = points where the accuracy clause was judged (true quantile >= 1e-13); plus the sampler binding: samples over the p alphabet whose metadata lambda must satisfy the same relation for (dod, coordinate 2E-2)".into(),
+        rule: "deterministic (a,p) lattice: log-spaced a plus ulp-neighbours of 0.05, 0.3, 1±1e-8, 1, 100; p = 0, 2^-k, 1-2^-k, i/n, 10^-e, 1-10^-e and per-a the p placing b=(1-p)Γ(a) on every start-value threshold ±2 ulp and the p whose quantile is a(1+δ) or 3a(1+δ) (thresholds on the Cornish-Fisher estimate); every point is a distinct input; non-trivial = points where the accuracy clause was judged (true quantile >= 1e-13); plus the sampler binding: samples over the p alphabet whose metadata lambda must satisfy the same relation for (dod, coordinate 2E-2)".into(),
         states: 0,
         transitions: 0,
         traces: 0,
